@@ -115,7 +115,7 @@ CHECKS["C11"] = dict(
 CHECKS["C06"] = dict(
    level="model_checking", ref="DESIGN.md section 5 (C06), GoNames.tla",
    technique="TLA+ model of the generator's naming and reservation design (GoNames.tla: goCase / constantName over abstract identifiers, package-level declared names, per-struct fields, accessors and generated methods, checkReservedIdentifier) checked by TLC over every pair of definitions / fields / parameters / enum items from an identifier pool built to collide (MCGoNames.tla: accepted => builds, non-clashing => accepted; negative control = reservations as pinned), plus TLC-enumerated valid type / default / constant shapes (MCGoShapes.tla); the explored programs and hand-written package / annotation / option families generated by the real thriftrw binary into a scratch module and compiled by go build; outcomes judged by TLC (C06Trace.tla), compilation verdicts from the Go compiler",
-   text="MCGoNames: 45 identifiers (case variants, initialisms, SCREAMING_CASE, leading / trailing underscores, Go keywords, names of generated methods, accessors and package-level declarations) x 7 definition kinds x 2, struct / union / exception fields x 2 x optionality, function parameters x 2, enum items x 2, enum item meeting a definition: 113k programs; invariants ModelAccepts => ModelBuilds and Safe => ModelAccepts for option sets all-on / all-off. A sample (every 30th (3rd) program whose names meet somewhere, every 400th (40th) other) x 9 option sets, every 6th (every) of 1219 type-expression x position shapes (constants, defaults, typedef chains, parameters, returns), and ~100 programs on file and package names (std / runtime package names, Go keywords, digits, hyphens, same base name in two directories, diamond and upward includes), go.name / go.label / go.tag / go.type / go.redact annotations, enums with shared / extreme values, functions, keyword identifiers, split generation (--no-types + --no-constants, --no-recurse per file, --output-file) are generated and built. TLC checks per program: the generator exits 0 or 1 without a panic, accepted => go build succeeds, Safe and IDL-valid (or expected valid) => accepted, rejections carry a message; conformance: acceptance, build outcome and declared top-level names as the model predicts.",
+   text="MCGoNames: 45 identifiers (case variants, initialisms, SCREAMING_CASE, leading / trailing underscores, Go keywords, names of generated methods, accessors and package-level declarations) x 7 definition kinds x 2, struct / union / exception fields x 2 x optionality, function parameters x 2, enum items x 2, enum item meeting a definition: 113k programs; invariants ModelAccepts => ModelBuilds and Safe => ModelAccepts for option sets all-on / all-off. A sample (every 30th (every) program whose names meet somewhere, every 400th (12th) other) x 9 option sets, every 6th (every) of 1219 type-expression x position shapes (constants, defaults, typedef chains, parameters, returns), and ~100 programs on file and package names (std / runtime package names, Go keywords, digits, hyphens, same base name in two directories, diamond and upward includes), go.name / go.label / go.tag / go.type / go.redact annotations, enums with shared / extreme values, functions, keyword identifiers, split generation (--no-types + --no-constants, --no-recurse per file, --output-file) are generated and built. TLC checks per program: the generator exits 0 or 1 without a panic, accepted => go build succeeds, Safe and IDL-valid (or expected valid) => accepted, rejections carry a message; conformance: acceptance, build outcome and declared top-level names as the model predicts.",
    note="Trusted: TLC, the Go compiler as the oracle for 'builds', the renderer of abstract programs to IDL, go/parser for declared names. The model's clash predicate is used only conservatively (Safe) for verdicts.")
 
 NOT_YET = {}
